@@ -91,6 +91,21 @@ std::string gen_env_entry(Tape &t, size_t i, size_t &budget)
   return name + "=" + val;
 }
 
+// Makes one extra entry set a variable whose name equals, or is a proper prefix
+// of, the name of a parent entry: the child must still get every parent entry
+// followed by every extra entry.
+void collide_names(Tape &t, const std::vector<std::string> &parent_env, std::vector<std::string> &extra)
+{
+  if (parent_env.empty() || extra.empty()) return;
+  size_t k = t.pick((uint32_t) extra.size());
+  const std::string &pe = parent_env[t.pick((uint32_t) parent_env.size())];
+  std::string pname = pe.substr(0, pe.find('='));
+  if (pname.empty()) return;
+  size_t cut = t.coin() ? pname.size() : 1 + t.pick((uint32_t) pname.size());
+  size_t eq = extra[k].find('=');
+  extra[k] = pname.substr(0, cut) + (eq == std::string::npos ? "=" : extra[k].substr(eq));
+}
+
 bool odd_arg(const std::string &a)
 {
   if (a.empty()) return true;
@@ -150,6 +165,8 @@ CaseResult one_round(Tape &t, int round)
     std::string e = "P" + gen_env_entry(t, i, budget);
     parent_env.push_back(e);
   }
+  bool collide = t.chance(1, 3) && !parent_env.empty() && !extra.empty();
+  if (collide) collide_names(t, parent_env, extra);
 
   // program naming: 0 absolute, 1 ./name, 2 sub/dir/name, 3 ../x/name, 4 bare via PATH
   int prog_kind = (int) t.weighted({ 5, 3, 3, 2, 3 });
@@ -354,6 +371,7 @@ CaseResult one_round(Tape &t, int round)
   if (any_odd) res.cls("odd-argument");
   if (!env_empty && !extra.empty()) res.cls("extend-with-extras");
   if (env_empty) res.cls("env-empty");
+  if (collide && !env_empty) res.cls("extra-name-collides-with-parent-name");
   if (rel_with_wd) res.cls("relative-program+working-directory");
   if (!decoy_dir.empty()) res.cls("decoy-planted");
   if (beyond) res.cls("cwd-beyond-PATH_MAX");
@@ -450,6 +468,7 @@ CaseResult fork_round(Tape &t)
   for (size_t i = 0; i < nextra; i++) extra.push_back(gen_env_entry(t, i, budget));
   size_t nparent = (size_t) t.range(0, 12);
   for (size_t i = 0; i < nparent; i++) parent_env.push_back("P" + gen_env_entry(t, i, budget));
+  if (t.chance(1, 3)) collide_names(t, parent_env, extra);
   bool have_wd = t.coin();
   std::string wd = root + "/wd";
   mkdir(wd.c_str(), 0755);
